@@ -1,5 +1,7 @@
 //! `arena` — deterministic simulator for arimaa_engine_step (see /verif/DESIGN.md).
 mod bridge;
+#[cfg(feature = "shuttle")]
+mod conc;
 mod ctx;
 mod driver;
 mod game;
@@ -57,6 +59,13 @@ fn main() {
         "wirefaults" => textfaults::cmd_wirefaults(&tier, seed, workers, &out, &replay_dir),
         "stack" => stack::cmd(&args[2..], &tier, seed, &out, &replay_dir),
         "merge" => report::cmd_merge(&args[2..]),
+        #[cfg(feature = "shuttle")]
+        "conc" => match args.get(2).map(|s| s.as_str()) {
+            Some("run") => conc::cmd_run(&args[3], &tier, seed, workers, &out, &replay_dir),
+            Some("replay") => conc::cmd_replay(&args[3]),
+            Some("solo") => conc::cmd_solo(&args[3], args[4].parse().unwrap_or(1), args[5].parse().unwrap_or(0), args[6].parse().unwrap_or(1), &args[7]),
+            _ => 2,
+        },
         other => {
             eprintln!("unknown command {}", other);
             2
